@@ -238,7 +238,14 @@ def main():
             if kf is not None:
                 out_lines.append('KNOWN-FINDING: property=%s %s' % (prop, kf))
                 continue
-            out_lines.append('VIOLATION property=%s replay=%s%s' % (prop, e.get('replay', ''), '' if e.get('found', True) else ' no-failing-input-found'))
+            rp = e.get('replay')
+            if not rp:
+                rp = os.path.join(rep_dir, '%s_%s.json' % (prop, re.sub(r'[^A-Za-z0-9_.-]', '_', e.get('oid', e.get('name', 'supplement')))[:150]))
+                with open(rp, 'w') as f:
+                    json.dump({'property': prop, 'obligation': e.get('oid', e.get('name')), 'verifier_output': e.get('detail', ''),
+                               'native_replay': {'failing_input_found': bool(e.get('found', False)), 'detail': e.get('native_detail', '')},
+                               'back_end': e.get('back_end', ''), 'tier': tier, 'seed': seed, 'header_digest': header_digest()}, f, indent=1)
+            out_lines.append('VIOLATION property=%s replay=%s%s' % (prop, rp, '' if e.get('found', False) else ' no-failing-input-found'))
             reported += 1
         if reported == 0 and not undec and not vacuous:
             rc = 0
